@@ -46,6 +46,40 @@ def cmp_refopt(S, a, b, lam1, lam2):
     return ref, opt
 
 
+def task_refopt_inf(a, env):
+    """infinity in either argument, in every representative the optimized module accepts: the
+    optimized value must be the reference value (the unit)"""
+    S = PL.get(a["cfg"])
+    r = R("%s:ref==opt:infinity-representatives" % a["cfg"])
+    refv = _co(S, PL.call(S.pair("ref").pairing, None, S.pt1("ref", S.G1)))
+    for i2, z in enumerate(S.inf2("opt")):
+        optv = _co(S, PL.call(S.pair("opt").pairing, z, S.pt1("opt", S.G1, 3)))
+        r.ev += 1
+        r.dk.add(("Q", i2))
+        if optv != refv:
+            r.viol("C12:%s:ref!=opt:infinity" % a["cfg"], ME + ":replay_refopt_inf", {"cfg": a["cfg"], "side": "Q", "i": i2}, refv, optv)
+    refv = _co(S, PL.call(S.pair("ref").pairing, S.pt2("ref", S.G2), None))
+    for i1, z in enumerate(S.inf1("opt")):
+        optv = _co(S, PL.call(S.pair("opt").pairing, S.pt2("opt", S.G2, (2, 1)), z))
+        r.ev += 1
+        r.dk.add(("P", i1))
+        if optv != refv:
+            r.viol("C12:%s:ref!=opt:infinity" % a["cfg"], ME + ":replay_refopt_inf", {"cfg": a["cfg"], "side": "P", "i": i1}, refv, optv)
+    r.sample({"cfg": a["cfg"], "infinity_representatives": [len(S.inf2("opt")), len(S.inf1("opt"))]})
+    return r
+
+
+def replay_refopt_inf(a):
+    S = PL.get(a["cfg"])
+    if a["side"] == "Q":
+        refv = _co(S, PL.call(S.pair("ref").pairing, None, S.pt1("ref", S.G1)))
+        optv = _co(S, PL.call(S.pair("opt").pairing, S.inf2("opt")[a["i"]], S.pt1("opt", S.G1, 3)))
+    else:
+        refv = _co(S, PL.call(S.pair("ref").pairing, S.pt2("ref", S.G2), None))
+        optv = _co(S, PL.call(S.pair("opt").pairing, S.pt2("opt", S.G2, (2, 1)), S.inf1("opt")[a["i"]]))
+    return None if refv == optv else {"reference": refv, "optimized": optv}
+
+
 def task_refopt(a, env):
     S = PL.get(a["cfg"])
     r = R("%s:ref==opt" % a["cfg"])
@@ -349,6 +383,8 @@ def run(ctx):
             for lo in range(4):
                 tasks.append(("fe", {"cfg": cfg, "fam": fam, "lo": lo, "step": 4,
                                      "thin": 12 if ctx.quick else 2}))
+    for cfg in PL.FULL + ("BLS-T2", "BN-T"):
+        tasks.append(("refopt_inf", {"cfg": cfg}))
     ctx.bounds = bounds
     tasks.sort(key=lambda t: 0 if t[1]["cfg"] in PL.FULL and (t[0] == "refopt" or t[1].get("fam") == "ref") else 1)
     ctx.pmap(ME, tasks)
